@@ -11,7 +11,10 @@
      Throttle           gate 0 < M_j = 1+j (j<3) < X 4 (_lock) < A 5 (AtomicInt.lock)
      Retry              gate 0 < M_j = 1+j (j<3) < X 4 (_lock, RLock)
      Timeout            gate 0 < M_j = 1+j (j<3), X 4 (_jobs_lock) -- never nested with M
-     Sync               gate 0; C_j = 2+j (the condition of the plain Future it returns)
+     Sync               gate 0; C_j = 2+j (the condition of the plain Future it returns); since commit 3a8457b the
+                        callable runs AFTER the gate section (shapes named ..._before_fix are the code before it)
+     Poll               gate 0 < X 1 (_lock, RLock) < M_j = 2+j   (pX, pM: section 9)
+     FlatMap            as Map
      ThreadPool (base)  _shutdown_lock 0 < _global_shutdown_lock 1 < C_j = 2+j (the condition of future j)
    The condition inside each library future (taken by the stdlib Future methods the library calls under M_j) is a
    leaf: nothing is acquired while it is held, so it is left out (DESIGN.md section 3: a stdlib Future method is one
@@ -153,16 +156,33 @@ Definition map_resolved_m3 (callbacks : list lp) : list lp := sect (M 0) ++ [LAc
 Definition completion_up2_m3 : list lp := sect (C 0) ++ [LUp (map_resolved_m3 [LUp (map_resolved_m3 [])])].
 
 (* ---------------------------------------------------------------------------------------------------------
+   SyncExecutor.submit.
+   Since commit 3a8457b (repair of G20): `with self._shutdown.ensure_alive(): future = Future(); track_future(...)`,
+   and the callable runs AFTER the gate has been released: a gate section, then the callable with nothing of the
+   sync layer held.
+   Before that commit the callable ran INSIDE the with-block, under the sync gate.                             *)
+Definition sync_submit_inline (callable : list lp) : list lp := sect G ++ callable.
+Definition sync_submit_inline_before_fix (callable : list lp) : list lp := [LAcq G] ++ callable ++ [LRel G].
+Definition sync_submit_plain : list lp := sync_submit_inline [].           (* a callable that takes no lock *)
+
+(* n upward calls nested in one another: code at layer n+i calling into layer i *)
+Fixpoint ups (n : nat) (body : list lp) : list lp :=
+  match n with
+  | 0 => body
+  | S n' => [LUp (ups n' body)]
+  end.
+
+(* ---------------------------------------------------------------------------------------------------------
    5. G10: timeout (0) over retry (1) over a SYNCHRONOUS executor (2).  The retry submit thread holds M and X
-      across SyncExecutor.submit, which runs the user's callable inline (under the sync gate); the callable submits
-      to the top executor again: two upward calls, then the gate of layer 0.                                 *)
+      across SyncExecutor.submit, which runs the user's callable inline; the callable submits to the top executor
+      again: two upward calls, then the gate of layer 0.  The repair of G20 does not touch this: the sync gate is
+      released, but M and X of retry are still held when the callable runs.                                   *)
 Definition timeout_submit (j : nat) : list lp :=
   [LAcq G; LDown (retry_submit_j j)] ++ sect (M j) ++ [LDown (sect (M j))] ++ sect (M j) ++ sect X ++ [LRel G].
    (* TimeoutExecutor.submit_timeout for future j: gate { delegate.submit(); MapFuture(delegate_future);
       future.add_done_callback(_on_future_done); with _jobs_lock: append } *)
-Definition sync_submit_inline (callable : list lp) : list lp := [LAcq G] ++ callable ++ [LRel G].
 Definition g10_retry_thread : list lp :=
-  retry_submit_now (sync_submit_inline [LUp [LUp (timeout_submit 2)]]).
+  retry_submit_now (sync_submit_inline (ups 2 (timeout_submit 2))).
 
 Definition g10_threads (t : nat) : lthread :=
   match t with
@@ -171,9 +191,9 @@ Definition g10_threads (t : nat) : lthread :=
   | _ => idle
   end.
 (* the user thread (submitting future 1) takes gate 0, gate 1, M_1 of retry and releases it: next X of retry;
-   the retry thread (future 0) takes and releases X, takes M_0, X, X again, releases it once, takes the sync gate:
-   next, inside the callable, gate 0 *)
-Definition g10_schedule : list nat := [0; 0; 0; 0; 1; 1; 1; 1; 1; 1; 1].
+   the retry thread (future 0) takes and releases X, takes M_0, X, X again, releases it once, takes and releases the
+   sync gate: next, inside the callable, gate 0 *)
+Definition g10_schedule : list nat := [0; 0; 0; 0; 1; 1; 1; 1; 1; 1; 1; 1].
 
 (* ---------------------------------------------------------------------------------------------------------
    6. nested submission (second sentence of C04; defect G5).  map (0) over sync (1).
@@ -181,48 +201,130 @@ Definition g10_schedule : list nat := [0; 0; 0; 0; 1; 1; 1; 1; 1; 1; 1].
       MapFuture(): _set_delegate under M; inner.add_done_callback(_delegate_resolved): the inner future is done, so
       the stdlib runs the callback INLINE, outside its condition: _delegate_resolved: M; map_fn -- user code that
       SUBMITS TO THE MAP EXECUTOR AGAIN, re-entering its gate --; set_result under M }                        *)
-Definition sync_submit_plain : list lp := sect G.
+Definition map_sync_submit (j : nat) : list lp :=     (* MapExecutor.submit of a plain callable, future j *)
+  [LAcq G; LDown sync_submit_plain] ++ sect (M j) ++
+  [LDown (sect (C j) ++ [LUp (sect (M j) ++ sect (M j))]); LRel G].
 Definition nested_in_map_fn : list lp :=
   [LAcq G; LDown sync_submit_plain] ++ sect (M 0) ++
-  [LDown (sect (C 0) ++
-          [LUp (sect (M 0) ++
-                ([LAcq G; LDown sync_submit_plain] ++ sect (M 1) ++ [LDown (sect (C 1) ++ [LUp (sect (M 1) ++ sect (M 1))]); LRel G]) ++
-                sect (M 0))])] ++
+  [LDown (sect (C 0) ++ [LUp (sect (M 0) ++ map_sync_submit 1 ++ sect (M 0))])] ++
   [LRel G].
-(* b. the callable itself, running inline inside SyncExecutor.submit UNDER THE SYNC GATE, submits to the map executor
-      again: an upward call made while a lock of the calling layer is held; every gate it meets is re-entered *)
-Definition nested_in_callable : list lp :=
-  [LAcq G;
-   LDown (sync_submit_inline
-            [LUp ([LAcq G; LDown sync_submit_plain] ++ sect (M 1) ++ [LDown (sect (C 1) ++ [LUp (sect (M 1) ++ sect (M 1))]); LRel G])])] ++
+(* b. the callable itself, running inline inside SyncExecutor.submit, submits to the map executor again: every gate it
+      meets is re-entered.  With the repaired SyncExecutor the upward call is made with nothing of the sync layer held;
+      before the repair it was made UNDER THE SYNC GATE *)
+Definition map_submit_with_callable (sync_submit : list lp -> list lp) (callable : list lp) : list lp :=
+  [LAcq G; LDown (sync_submit callable)] ++
   sect (M 0) ++ [LDown (sect (C 0) ++ [LUp (sect (M 0) ++ sect (M 0))]); LRel G].
+Definition nested_in_callable : list lp :=
+  map_submit_with_callable sync_submit_inline [LUp (map_sync_submit 1)].
+Definition nested_in_callable_before_fix : list lp :=
+  map_submit_with_callable sync_submit_inline_before_fix [LUp (map_sync_submit 1)].
 
 (* the gate of layer 0 as a plain Lock (before the repair of G5): every other lock stays re-entrant *)
 Definition gate0_plain (l : nat) : bool := negb (Nat.eqb l (glob KL 0 G)).
 
 (* ---------------------------------------------------------------------------------------------------------
-   7. map (0) over a synchronous executor (1), every call entering through the top.  Numbering: gates first
-      (Layers.gate_first LS KL): gate 0 < gate 1 < every other lock.                                          *)
+   7. map (0) over a synchronous executor (1).  What user threads do, by entry layer: at the top, submit (plain; with
+      a map function that submits again; with a callable that submits again), cancel, shutdown, add_done_callback; at
+      layer 1 -- the synchronous executor used DIRECTLY -- submit of a plain callable, submit of a callable that
+      submits to the map executor, shutdown.                                                                   *)
 Definition LS : nat := 2.
-Definition map_sync_submit (j : nat) : list lp :=     (* MapExecutor.submit of a plain callable, future j *)
-  [LAcq G; LDown sync_submit_plain] ++ sect (M j) ++
-  [LDown (sect (C j) ++ [LUp (sect (M j) ++ sect (M j))]); LRel G].
 Definition map_sync_cancel : list lp :=               (* cancel(): M, M again, inner.cancel() under its condition *)
   [LAcq (M 0); LAcq (M 0); LDown (sect (C 0)); LRel (M 0); LRel (M 0)].
 Definition map_sync_shutdown : list lp := sect G ++ [LDown (sect G)].
-Definition map_sync_api : list (list lp) :=
-  [map_sync_submit 0; map_sync_submit 1; nested_in_map_fn; nested_in_callable; map_sync_cancel; map_sync_shutdown;
-   sect (M 0); sect (M 1)].
+Definition sync_direct_nested : list lp := sync_submit_inline [LUp (map_sync_submit 1)].
+Definition sync_direct_nested_before_fix : list lp := sync_submit_inline_before_fix [LUp (map_sync_submit 1)].
+Definition map_sync_api (layer : nat) : list (list lp) :=
+  match layer with
+  | 0 => [map_sync_submit 0; map_sync_submit 1; nested_in_map_fn; nested_in_callable; map_sync_cancel;
+          map_sync_shutdown; sect (M 0); sect (M 1)]
+  | 1 => [sync_submit_plain; sync_direct_nested; sect G]
+  | _ => []
+  end.
+(* the code before commit 3a8457b, every call entering at the top; numbering: gates first (Layers.gate_first LS KL):
+   gate 0 < gate 1 < every other lock *)
+Definition map_sync_api_before_fix : list (list lp) :=
+  [map_sync_submit 0; map_sync_submit 1; nested_in_map_fn; nested_in_callable_before_fix; map_sync_cancel;
+   map_sync_shutdown; sect (M 0); sect (M 1)].
 
 (* ---------------------------------------------------------------------------------------------------------
-   8. the same stack entered at TWO layers, no retry executor involved: thread 0 submits through the map executor;
-      thread 1 submits DIRECTLY to the synchronous executor a callable that submits to the map executor.
-      SyncExecutor.submit holds its gate while the callable runs: gate 1 then gate 0, against gate 0 then gate 1.   *)
-Definition sync_direct_nested : list lp := sync_submit_inline [LUp (map_sync_submit 1)].
-Definition gate_inversion_threads (t : nat) : lthread :=
+   8. G20 (repaired by commit 3a8457b).  The same stack entered at TWO layers, no retry executor involved: thread 0
+      submits through the map executor; thread 1 submits DIRECTLY to the synchronous executor a callable that submits
+      to the map executor.  Before the repair SyncExecutor.submit held its gate while the callable ran: gate 1 then
+      gate 0, against gate 0 then gate 1.                                                                       *)
+Definition gate_inversion_threads_before_fix (t : nat) : lthread :=
+  match t with
+  | 0 => {| l_start := 0; l_prog := map_sync_submit 0 |}
+  | 1 => {| l_start := 1; l_prog := sync_direct_nested_before_fix |}
+  | _ => idle
+  end.
+Definition gate_inversion_schedule : list nat := [0; 1].
+Definition gate_inversion_threads (t : nat) : lthread :=        (* the same two threads on the repaired code *)
   match t with
   | 0 => {| l_start := 0; l_prog := map_sync_submit 0 |}
   | 1 => {| l_start := 1; l_prog := sync_direct_nested |}
   | _ => idle
   end.
-Definition gate_inversion_schedule : list nat := [0; 1].
+
+(* ---------------------------------------------------------------------------------------------------------
+   9. PollExecutor (layer 0) over a thread pool (layer 1).  Local order of the Poll machine (Props/C04_poll.v):
+      gate 0 < X 1 (PollExecutor._lock, RLock) < M_j = 2+j (PollFuture._me_lock).                              *)
+Definition pX : nat := 1.
+Definition pM (j : nat) : nat := 2 + j.
+(* _register_poll: with self._lock: append; future._clear_delegate() (M under X) *)
+Definition poll_register : list lp := [LAcq pX; LAcq (pM 0); LRel (pM 0); LRel pX].
+(* PollFuture._delegate_resolved for a failed delegate: copy_future_exception -> set_exception under M; callbacks
+   outside M: _clear_executor -> _deregister_poll under X *)
+Definition poll_delegate_failed : list lp := sect (pM 0) ++ sect pX.
+(* submit: gate { delegate.submit(); PollFuture(): add_done_callback(_clear_executor) under M;
+   delegate.add_done_callback(_delegate_resolved): delegate still running } *)
+Definition poll_submit : list lp :=
+  [LAcq G; LDown pool_submit] ++ sect (pM 0) ++ [LDown (sect (C 0)); LRel G].
+(* the same with a delegate that has already finished: the stdlib runs _delegate_resolved inline, outside its
+   condition, while the gate is held: gate, X, M nested (c04_poll_nested_example) *)
+Definition poll_submit_delegate_done : list lp :=
+  [LAcq G; LDown pool_submit] ++ sect (pM 0) ++ [LDown (sect (C 0) ++ [LUp poll_register]); LRel G].
+(* pool worker (starts at layer 1) completing the delegate: set_result under the condition, callbacks outside *)
+Definition poll_pool_worker_ok : list lp := sect (C 0) ++ [LUp poll_register].
+Definition poll_pool_worker_failed : list lp := sect (C 0) ++ [LUp poll_delegate_failed].
+(* poll thread, one iteration: _run_poll_fn: snapshot under X; poll_fn (user code) with nothing held;
+   descriptor.yield_result -> PollFuture.set_result under M; callbacks outside M: _deregister_poll under X *)
+Definition poll_thread_iter : list lp := sect pX ++ sect (pM 0) ++ sect pX.
+(* cancel(): M { delegate.cancel() WHILE M IS HELD (its callback comes back up: delegate cancelled -> returns);
+   _run_cancel_fn: unlocked scan, cancel_fn (user code) under M }; callbacks outside M: _deregister_poll under X *)
+Definition poll_cancel : list lp := [LAcq (pM 0); LDown (sect (C 0) ++ [LUp []]); LRel (pM 0)] ++ sect pX.
+Definition poll_shutdown : list lp := sect G ++ [LDown pool_shutdown].
+Definition poll_api (layer : nat) : list (list lp) :=
+  match layer with
+  | 0 => [poll_submit; poll_submit_delegate_done; poll_thread_iter; poll_cancel; poll_shutdown; sect (pM 0)]
+  | 1 => [poll_pool_worker_ok; poll_pool_worker_failed]
+  | _ => []
+  end.
+
+(* ---------------------------------------------------------------------------------------------------------
+   10. FlatMapExecutor (layer 0) over a thread pool (layer 1).  FlatMapFuture is a MapFuture: gate 0 < M_j = 1+j.
+       submit is MapExecutor.submit.  The map function returns a future; here it SUBMITS TO THE FLAT-MAP EXECUTOR
+       ITSELF (future 1): run by the pool worker, outside every lock, from inside _delegate_resolved of future 0:
+       _set_delegate(None) under M_0; map_fn: a whole nested submit (gate taken afresh by the worker);
+       _on_mapped: _set_delegate(result) under M_0, then result.add_done_callback(_delegate_resolved): M_1 of the same
+       layer, M_0 not held.                                                                                     *)
+Definition flat_map_submit (j : nat) : list lp :=
+  [LAcq G; LDown pool_submit] ++ sect (M j) ++ [LDown (sect (C j)); LRel G].
+Definition flat_map_stage1 : list lp :=
+  sect (C 0) ++ [LUp (sect (M 0) ++ flat_map_submit 1 ++ sect (M 0) ++ sect (M 1))].
+(* second stage: the pool worker completes future 1's delegate; _delegate_resolved of future 1: _set_delegate(None);
+   map_fn returns an already finished future (f_return); _set_delegate(result) under M_1; its callback runs inline:
+   _set_delegate(None), set_result under M_1; callbacks OUTSIDE M_1: _delegate_resolved of future 0 (same layer):
+   _set_delegate(None), set_result under M_0 *)
+Definition flat_map_stage2 : list lp :=
+  sect (C 1) ++ [LUp (sect (M 1) ++ sect (M 1) ++ sect (M 1) ++ sect (M 1) ++ sect (M 0) ++ sect (M 0))].
+(* cancel of the flattened future 0 whose delegate is now future 1 of the same layer: M_0 twice, then M_1 (twice),
+   then the pool future; the callbacks come back: future 1's (outside M_1) re-enter M_0 *)
+Definition flat_map_cancel : list lp :=
+  [LAcq (M 0); LAcq (M 0); LAcq (M 1); LAcq (M 1); LDown (sect (C 1) ++ [LUp []]); LRel (M 1); LRel (M 1)] ++
+  sect (M 0) ++ [LRel (M 0); LRel (M 0)].
+Definition flat_map_api (layer : nat) : list (list lp) :=
+  match layer with
+  | 0 => [flat_map_submit 0; flat_map_submit 1; flat_map_cancel; sect (M 0); sect (M 1); sect G ++ [LDown pool_shutdown]]
+  | 1 => [flat_map_stage1; flat_map_stage2]
+  | _ => []
+  end.
